@@ -1,11 +1,21 @@
 (* C17 -- facts about the specification S (abstract LRU cache over the eager map). *)
 Require Import SF.Prelude SF.PySlice SF.BusSpec.
 
+Lemma filter_len_le {A} (p : A -> bool) (l : list A) : (length (filter p l) <= length l)%nat.
+Proof. induction l as [|x r IH]; cbn; [lia|]. destruct (p x); cbn; lia. Qed.
+
+Lemma NoDup_app_in {A} (a b : list A) :
+  NoDup a -> NoDup b -> (forall x, In x a -> In x b -> False) -> NoDup (a ++ b).
+Proof.
+  induction a as [|x r IH]; cbn; intros Na Nb D; [exact Nb|].
+  inversion Na; subst. constructor.
+  - rewrite in_app_iff. intros [I|I]; [contradiction | apply (D x); auto].
+  - apply IH; auto. intros y Iy. apply D. auto.
+Qed.
+
 Section Facts.
-Variables L F : Type.
+Variable L : Type.
 Variable leqb : L -> L -> bool.
-Variable lleb : L -> L -> bool.
-Variable fkey : F -> Z.
 Hypothesis leqb_spec : forall x y, leqb x y = true <-> x = y.
 
 Notation mem := (mem L leqb).
@@ -14,8 +24,6 @@ Notation la_touch := (la_touch L leqb).
 Notation s_touch := (s_touch L leqb).
 Notation s_trim := (s_trim L).
 Notation s_access_all := (s_access_all L leqb).
-Notation s_step := (s_step L F leqb lleb fkey).
-Notation s_exec := (s_exec L F leqb lleb fkey).
 Notation sbus := (sbus L).
 
 Lemma leqb_refl x : leqb x x = true.
@@ -50,10 +58,11 @@ Lemma la_remove_NoDup l c : NoDup c -> NoDup (la_remove l c).
 Proof. apply NoDup_filter. Qed.
 
 Lemma la_remove_length l c : (length (la_remove l c) <= length c)%nat.
-Proof. apply filter_length_le. Qed.
+Proof. apply filter_len_le. Qed.
 
 Lemma la_remove_notin l c : ~ In l c -> la_remove l c = c.
 Proof.
+  unfold BusSpec.la_remove.
   induction c as [|x r IH]; cbn; intro H; [reflexivity|].
   destruct (leqb x l) eqn:E; cbn.
   - apply leqb_spec in E. subst. tauto.
@@ -63,7 +72,7 @@ Qed.
 Lemma la_touch_NoDup l c : NoDup c -> NoDup (la_touch l c).
 Proof.
   intro H. unfold BusSpec.la_touch.
-  apply NoDup_app_intro; [apply la_remove_NoDup, H | repeat constructor; cbn; tauto |].
+  apply NoDup_app_in; [apply la_remove_NoDup, H | repeat constructor; cbn; tauto |].
   intros x I [E|[]]. subst. apply la_remove_In in I. tauto.
 Qed.
 
@@ -104,7 +113,7 @@ Proof.
   intros N B. split; [apply NoDup_filter, N|].
   destruct mp as [k|]; [|exact I].
   destruct (B k eq_refl) as [K Bk]. split; [exact K|].
-  pose proof (filter_length_le p c). lia.
+  pose proof (filter_len_le p c). lia.
 Qed.
 
 End Facts.
